@@ -4,6 +4,7 @@
 -/
 import NPModel.Refine.Transpose
 import NPModel.Refine.Samples
+import NPModel.Refine.RoundTrip
 namespace NP.C19
 open NP
 variable {α : Type}
@@ -51,6 +52,36 @@ theorem list_struct_same_records (s : PStruct α) (l : PLS α) (hw : s.WF = true
 /-- non-vacuity: a chunk whose fields are slices of different buffers (the case the `fix:` for
     the transposition repaired) -/
 example : Samples.s1.WF = true ∧ Samples.s1.validate = .ok () ∧ (transposeSL Samples.s1 false).toBool = true := by
+  decide
+
+/-- **Export then import is the identity on rows** (`pa.array(nested)` in the list-of-structs
+    orientation, then `NestedExtensionArray(list_struct_array)`): on validated storage both
+    transpositions succeed, and — when missing rows store nothing — every present row comes back
+    unchanged while every missing row comes back as a row of empty lists (Arrow's list-of-structs
+    layout produced by the export has no row validity; `transposeSL … false`). For every chunk:
+    any slice offsets, any buffers, any number of fields and rows. -/
+theorem export_import_rows (s : PStruct α) (hw : s.WF = true) (hne : s.nullEmpty = true)
+    (hv : s.validate = .ok ()) (hh : s.noHidden) (k0 : PField α) (ks : List (PField α)) (hk : s.kids = k0 :: ks) :
+    ∃ s', (transposeSL s false >>= transposeLS) = .ok s' ∧
+      s'.rows = s.rows.map fun r => some (r.getD (emptyTable s)) :=
+  ⟨reimported s k0, transpose_twice_ok s hw hne hv k0 ks hk, roundtrip_rows s hw hne hv hh k0 ks hk⟩
+
+/-- Without the storage invariant (a missing row may keep values in its extents — K1): the round
+    trip still succeeds and returns, for every row, what the chunk *stores* there; present rows are
+    therefore always unchanged. -/
+theorem export_import_present_rows (s : PStruct α) (hw : s.WF = true) (hne : s.nullEmpty = true)
+    (hv : s.validate = .ok ()) (k0 : PField α) (ks : List (PField α)) (hk : s.kids = k0 :: ks)
+    (i : Nat) (hi : i < s.len) (hp : s.valid.getD i false = true) :
+    ∃ s', (transposeSL s false >>= transposeLS) = .ok s' ∧ s'.rowAt i = s.rowAt i := by
+  refine ⟨reimported s k0, transpose_twice_ok s hw hne hv k0 ks hk, ?_⟩
+  rw [reimported_rowAt s hw hne hv k0 ks hk i hi]
+  unfold PStruct.rowAt PStruct.storedAt
+  rw [hp]; rfl
+
+/-- non-vacuity: the sliced two-buffer sample with a missing middle row meets every hypothesis -/
+example : Samples.s1.WF = true ∧ Samples.s1.nullEmpty = true ∧ Samples.s1.validate = .ok () ∧ Samples.s1.noHidden := by
+  refine ⟨by decide, by decide, by decide, ?_⟩
+  unfold PStruct.noHidden
   decide
 
 end NP.C19
